@@ -5,7 +5,8 @@
 // to the real NewIntercepted... constructors + CheckValidity with the marshalizer wiring of the
 // interceptors container (SizeCheckUnmarshalizer with the production delta of 10 %, and without it).
 // Oracle: accepted(E) and accepted(E') and remarshal(decode(E')) == E  =>  Hash(E') == Hash(E).
-// Secondary: accepted encodings of different content never share a hash.
+// Secondary: constructor-accepted byte strings of different content never share a hash (siblings of the
+// canonical encoding and of every accepted mutant, one value byte changed).
 package main
 
 import (
@@ -540,33 +541,55 @@ func main() {
 			return vk.Hex(h)
 		}
 
-		// secondary oracle: different content, same hash
-		if fs, perr := parseMsg(E); perr == nil && len(fs) > 0 {
-			last := &fs[len(fs)-1]
-			switch last.wt {
-			case 0:
-				last.val ^= 1
-			default:
-				if len(last.raw) > 0 {
-					last.raw[len(last.raw)-1] ^= 1
-				} else {
-					last.raw = []byte{1}
-				}
+		// secondary oracle: received byte strings with DIFFERENT content never share a hash. Applied to every
+		// encoding Ex that the constructor accepts in this case (the canonical one and every accepted mutant):
+		// siblings differ from Ex in one byte inside a value.
+		collisionCheck := func(Ex []byte, hx []byte, canonical bool, how string) {
+			ox := t.empty()
+			if e.plain.Unmarshal(ox, Ex) != nil {
+				return
 			}
-			E2 := encodeMsg(fs)
-			o2 := t.empty()
-			if e.plain.Unmarshal(o2, E2) == nil {
-				if R2, err := e.plain.Marshal(o2); err == nil && !bytes.Equal(R2, E) {
-					if h2, ce, _ := run(t, E2, e.onM); ce == nil {
-						r.Eval(1)
-						r.Count("different_content_pairs", 1)
-						if bytes.Equal(h2, hOn) {
-							r.Violation(c.Idx, "different-content-same-hash type="+t.name, fmt.Sprintf("%x and %x decode to different content but share hash %x", E, E2, h2),
-								map[string]interface{}{"type": t.name, "canonical": vk.Hex(E), "other": vk.Hex(E2), "hash": vk.Hex(h2)})
-						}
+			Rx, err := e.plain.Marshal(ox)
+			if err != nil {
+				return
+			}
+			for _, sb := range siblings(Ex, t.schema) {
+				o2 := t.empty()
+				if e.plain.Unmarshal(o2, sb.buf) != nil {
+					r.Count("sibling_undecodable", 1)
+					continue
+				}
+				R2, err := e.plain.Marshal(o2)
+				if err != nil || bytes.Equal(R2, Rx) {
+					r.Count("sibling_same_content", 1)
+					continue
+				}
+				d, cerr := t.intercept(append([]byte(nil), sb.buf...), e.onM)
+				if cerr != nil || d == nil || reflect.ValueOf(d).IsNil() {
+					r.Count("sibling_rejected_by_constructor", 1)
+					continue
+				}
+				h2 := d.Hash()
+				r.Eval(1)
+				if canonical {
+					r.Count("different_content_pairs:canonical", 1)
+				} else {
+					r.Count("different_content_pairs:non-canonical", 1)
+					if len(Ex) > len(Rx) {
+						r.Count("different_content_pairs:non-canonical-longer-than-canonical", 1)
 					}
 				}
+				r.Count("different_content_pairs:"+t.name, 1)
+				if bytes.Equal(h2, hx) {
+					r.Violation(c.Idx, "different-content-same-hash type="+t.name,
+						fmt.Sprintf("%s: %d-byte %s encoding and its sibling with byte %d changed (%s) decode to different content but share hash %s..", t.name, len(Ex), how, sb.pos, sb.what, short(h2)),
+						map[string]interface{}{"type": t.name, "encoding": vk.Hex(Ex), "encoding_is_canonical": canonical, "encoding_kind": how, "canonical_len": len(Rx),
+							"sibling": vk.Hex(sb.buf), "changed_byte_position": sb.pos, "changed_byte_is": sb.what, "hash": vk.Hex(h2)})
+				}
 			}
+		}
+		if len(E) > 0 && ce == nil {
+			collisionCheck(E, hOn, true, "canonical")
 		}
 
 		for _, class := range allClasses {
@@ -628,6 +651,9 @@ func main() {
 				}
 				hmOn, cOn, vOn := run(t, Em, e.onM)
 				accOn := cOn == nil && vOn == nil
+				if cOn == nil {
+					collisionCheck(Em, hmOn, false, cls+"/"+sub)
+				}
 				refOnBefore := refOn
 				vOnS := verd(accOn, hmOn, &refOn)
 				var hmOff []byte
